@@ -13,6 +13,7 @@ exhaustive scan of the harness); `C08_full_false_lower_outside_orbit` / `C08_ful
 such runes the model's two paths do differ (witnesses İ/i and ſ/s), i.e. that the unrestricted statement is false.
 -/
 import ZoektModel.C08.Lemmas
+import ZoektModel.C08.Odometer
 namespace ZoektModel.C08
 
 /-- **C08 under fold-table agreement** (files and ranges, any shard, any trigram selection): if every pattern rune and
@@ -34,6 +35,20 @@ theorem C08_agree_partial (F : Fold) (hv : VariantsComplete F) (sel : Nat × Nat
       exact List.isEmpty_iff.mp he
     · rfl
   · simp
+
+/-- **`generateCaseNgrams` is complete**: for fold tables whose orbits are cycles of length ≤ 8 (`FoldCyclic`; Go's are
+    ≤ 4, checked exhaustively on every run), the Go loop — a mixed-radix odometer over the three orbits that stops
+    when it is back at the original trigram — produces every member of the orbit product. -/
+theorem generateCaseNgrams_complete (F : Fold) (hc : FoldCyclic F) : VariantsComplete F :=
+  variantsComplete_of_cyclic F hc
+
+/-- **C08 under fold-table agreement, with the trigram pre-filter proved complete** (no hypothesis on
+    `generateCaseNgrams` left): see `C08_agree_partial`. -/
+theorem C08_agree_cyclic_partial (F : Fold) (hc : FoldCyclic F) (sel : Nat × Nat) (pat : List Nat)
+    (docs : List (List Nat)) (text : List Nat)
+    (h1 : sel.1 + 3 ≤ pat.length) (h2 : sel.2 + 3 ≤ pat.length) (ha : AgreeOn F pat text) :
+    substrSearch F sel pat docs text = regexSearch F sel pat docs text (idealEngine F pat text) :=
+  C08_agree_partial F (variantsComplete_of_cyclic F hc) sel pat docs text h1 h2 ha
 
 /-- the same for all documents of the shard at once: identical result lists, hence identical sets of files -/
 theorem C08_agree_shard_partial (F : Fold) (hv : VariantsComplete F) (sel : Nat × Nat) (pat : List Nat)
@@ -106,6 +121,12 @@ theorem C08_full_false :
   exact absurd e (by decide)
 
 /-! ### non-vacuity of the positive theorem -/
+
+/-- `k → K (U+212A) → K → k`: a period-3 orbit of Go's tables -/
+example : Period goFold 107 3 :=
+  ⟨by decide, by decide, by decide, fun k h0 h3 => by
+    have : k = 1 ∨ k = 2 := by omega
+    rcases this with rfl | rfl <;> decide⟩
 
 /-- the hypothesis holds and the conclusion is a real match: `Kelvin`-style folding, `k` against `K` (U+212A) -/
 example : foldAgree goFold 107 0x212A = true ∧ foldAgree goFold 75 107 = true := by decide
